@@ -37,22 +37,22 @@ def main(args=None) -> int:
             return 0
         case "set":
             source = parse(args.file.read())
-            print(
-                set_value(
-                    source=source,
-                    npath=args.npath,
-                    value=args.value,
-                )
+            output = set_value(
+                source=source,
+                npath=args.npath,
+                value=args.value,
             )
+            # Only add a line terminator when the rebuilt text lacks one.
+            print(output, end="" if output.endswith("\n") else "\n")
             return 0
         case "rm":
             source = parse(args.file.read())
-            print(
-                remove_value(
-                    source=source,
-                    npath=args.npath,
-                )
+            output = remove_value(
+                source=source,
+                npath=args.npath,
             )
+            # Only add a line terminator when the rebuilt text lacks one.
+            print(output, end="" if output.endswith("\n") else "\n")
             return 0
         case "test":
             original = args.file.read()
